@@ -26,6 +26,9 @@ class ReadChecker:
         self.ch, self.F, self.ref = ch, frames, ref      # ref: ty -> list of item hex strings (len = frames*ch)
         self.pos = 0
         self.problems = []
+        self.bw = None            # bytes per frame (sample-granular encodings) for sf_read_raw
+        self.filebytes = None     # the file, to locate the raw bytes
+        self.rawbase = None       # offset of frame 0 in the file, learnt from the first raw read
 
     def bad(self, k, what, cat="count"):
         self.problems.append((k, what, cat))
@@ -72,6 +75,44 @@ class ReadChecker:
             if err != "0" and ret > 0:
                 self.bad(k, "successful read left error %s" % err, "count")
             self.pos = min(newpos, self.F) if newpos > self.F else newpos
+        elif t[0] == "rraw":
+            n = int(t[2])
+            ret = int(kv.get("ret", "-999"))
+            err = kv.get("err", "?")
+            bw = self.bw
+            if not bw:
+                return
+            if n >= 0 and self.pos >= self.F:
+                # sf_read_raw tests end-of-data before the alignment of the request
+                if ret != 0 or err != "0":
+                    self.bad(k, "sf_read_raw at end of data: ret=%d err=%s (want 0, no error)" % (ret, err), "eof")
+                return
+            if n % bw != 0 or n < 0:
+                if ret != 0 or err == "0":
+                    self.bad(k, "sf_read_raw with %d bytes (frame size %d) must return 0 with an error set: ret=%d err=%s" % (n, bw, ret, err), "invalid")
+                return
+            want = min(n // bw, max(self.F - self.pos, 0)) * bw
+            if ret != want:
+                self.bad(k, "sf_read_raw of %d bytes at frame %d of %d (frame size %d) returned %d, want %d" % (n, self.pos, self.F, bw, ret, want), "count")
+                if ret < 0 or ret > n or ret % bw:
+                    return
+            data = bytes.fromhex(kv.get("data", ""))[:max(ret, 0)]
+            if ret > 0 and self.filebytes is not None:
+                # the offset of frame 0 in the file is not known here: keep the set of offsets consistent with every raw read so far
+                cands, j = set(), self.filebytes.find(data)
+                while j >= 0 and len(cands) < 4096:
+                    if j - self.pos * bw >= 0:
+                        cands.add(j - self.pos * bw)
+                    j = self.filebytes.find(data, j + 1)
+                if self.rawbase is not None:
+                    cands &= self.rawbase
+                if not cands:
+                    self.bad(k, "sf_read_raw at frame %d delivered %d bytes that are not the file's bytes at any offset consistent with the earlier raw reads" % (self.pos, ret), "data")
+                else:
+                    self.rawbase = cands
+            if err != "0" and ret > 0:
+                self.bad(k, "successful sf_read_raw left error %s" % err, "count")
+            self.pos += ret // bw
         elif t[0] == "seek":
             off, wh = int(t[2]), int(t[3], 0)
             ret = int(kv.get("ret", "-999"))
